@@ -244,12 +244,22 @@ pub fn on_small_stack<T: Send>(f: impl FnOnce() -> T + Send) -> T {
 }
 
 fn write_replay_raw(dir: &str, prop: &str, case_json: &str, reason: &str) -> String {
+  write_replay_ctx(dir, prop, case_json, reason, &[])
+}
+
+/// `context`: the cases evaluated on the same thread right before a failure that does not show when the failing case
+/// is evaluated on its own (the library kept something between cases); a replay evaluates them first, in order.
+fn write_replay_ctx(dir: &str, prop: &str, case_json: &str, reason: &str, context: &[String]) -> String {
   let d = format!("{dir}/replays/{prop}");
   let _ = std::fs::create_dir_all(&d);
   let path = format!("{d}/{:016x}.json", hash64(case_json));
   let case: serde_json::Value =
     serde_json::from_str(case_json).unwrap_or(serde_json::Value::String(case_json.to_string()));
-  let doc = serde_json::json!({ "property": prop, "reason": reason, "case": case });
+  let mut doc = serde_json::json!({ "property": prop, "reason": reason, "case": case });
+  if !context.is_empty() {
+    let ctx: Vec<serde_json::Value> = context.iter().filter_map(|c| serde_json::from_str(c).ok()).collect();
+    doc["context"] = serde_json::Value::Array(ctx);
+  }
   let _ = std::fs::write(&path, serde_json::to_string_pretty(&doc).unwrap());
   path
 }
@@ -268,6 +278,16 @@ pub struct Failure {
   pub leg: &'static str,
   pub reason: String,
   pub case_json: String,
+  /// cases evaluated before it on the same thread, when the failure needs them (see `write_replay_ctx`)
+  pub context: Vec<String>,
+}
+
+const RECENT_CASES: usize = 12;
+thread_local! {
+  /// the last cases evaluated on this thread, oldest first (the last entry is the case being evaluated)
+  static RECENT: RefCell<std::collections::VecDeque<String>> = const { RefCell::new(std::collections::VecDeque::new()) };
+  /// (case, reason, cases before it) of the first failure a generated leg met on this thread
+  static FIRST_FAIL: RefCell<Option<(String, String, Vec<String>)>> = const { RefCell::new(None) };
 }
 
 pub struct Outcome {
@@ -399,6 +419,13 @@ pub fn start_watchdog() {
 fn eval_case<P: Prop>(p: &P, case: &P::Case) -> (String, CheckResult) {
   let json = serde_json::to_string(case).expect("case serialises");
   CURRENT_CASE.with(|c| *c.borrow_mut() = json.clone());
+  RECENT.with(|r| {
+    let mut r = r.borrow_mut();
+    if r.len() == RECENT_CASES + 1 {
+      r.pop_front();
+    }
+    r.push_back(json.clone());
+  });
   let slot = MY_SLOT.with(|s| *s);
   SLOTS.lock().unwrap()[slot] = Some((TICKS.load(Ordering::SeqCst), json.clone(), vec![gettid()]));
   struct Clear(usize);
@@ -559,7 +586,13 @@ pub fn run_prop<P: Prop>(p: &P, ctx: &Ctx) -> i32 {
                       Ok(())
                     }
                     Err(reason) => {
-                      failed.store(true, Ordering::Relaxed);
+                      if !failed.swap(true, Ordering::Relaxed) {
+                        let before: Vec<String> = RECENT.with(|r| {
+                          let r = r.borrow();
+                          r.iter().take(r.len().saturating_sub(1)).cloned().collect()
+                        });
+                        FIRST_FAIL.with(|f| *f.borrow_mut() = Some((json.clone(), reason.clone(), before)));
+                      }
                       Err(TestCaseError::fail(reason))
                     }
                   }
@@ -580,10 +613,30 @@ pub fn run_prop<P: Prop>(p: &P, ctx: &Ctx) -> i32 {
                       stop.store(true, Ordering::SeqCst);
                       let mut f = failure.lock().unwrap();
                       if f.is_none() {
-                        *f = Some(Failure {
-                          leg: leg_name,
-                          reason: reason.message().to_string(),
-                          case_json: serde_json::to_string(&case).unwrap(),
+                        // does the shrunk case fail on its own, on a thread that has evaluated nothing else?  If not, the
+                        // library kept something between cases: report the first failing case as it was met, together with
+                        // the cases evaluated before it on this thread
+                        let shrunk_json = serde_json::to_string(&case).unwrap();
+                        let alone = std::thread::scope(|sc2| {
+                          std::thread::Builder::new()
+                            .stack_size(64 << 20)
+                            .spawn_scoped(sc2, || match serde_json::from_str::<P::Case>(&shrunk_json) {
+                              Ok(c) => eval_case(p, &c).1.is_err(),
+                              Err(_) => true,
+                            })
+                            .ok()
+                            .and_then(|h| h.join().ok())
+                            .unwrap_or(true)
+                        });
+                        let first = FIRST_FAIL.with(|ff| ff.borrow_mut().take());
+                        *f = Some(match (alone, first) {
+                          (false, Some((json, why, before))) => Failure {
+                            leg: leg_name,
+                            reason: format!("{why} [the case passes when evaluated on its own: the failure depends on what the library kept from the {} cases evaluated before it on the same thread, which the replay file lists]", before.len()),
+                            case_json: json,
+                            context: before,
+                          },
+                          _ => Failure { leg: leg_name, reason: reason.message().to_string(), case_json: serde_json::to_string(&case).unwrap(), context: vec![] },
                         });
                       }
                     }
@@ -658,7 +711,7 @@ pub fn run_prop<P: Prop>(p: &P, ctx: &Ctx) -> i32 {
                         stop.store(true, Ordering::SeqCst);
                         let mut f = failure.lock().unwrap();
                         if f.is_none() {
-                          *f = Some(Failure { leg: leg_name, reason, case_json: json });
+                          *f = Some(Failure { leg: leg_name, reason, case_json: json, context: vec![] });
                         }
                         break;
                       }
@@ -716,7 +769,7 @@ pub fn run_prop<P: Prop>(p: &P, ctx: &Ctx) -> i32 {
   if ctx.sub {
     // child of a checked run: machine-readable summary, no evidence file
     let (freason, fpath) = match &failure {
-      Some(f) => (Some(f.reason.clone()), Some(write_replay_raw(&ctx.verif_dir, P::ID, &f.case_json, &f.reason))),
+      Some(f) => (Some(f.reason.clone()), Some(write_replay_ctx(&ctx.verif_dir, P::ID, &f.case_json, &f.reason, &f.context))),
       None => (None, None),
     };
     println!(
@@ -792,7 +845,7 @@ pub fn run_prop<P: Prop>(p: &P, ctx: &Ctx) -> i32 {
     println!("  class {k}: {v}");
   }
   if let Some(f) = failure {
-    let path = write_replay_raw(&ctx.verif_dir, P::ID, &f.case_json, &f.reason);
+    let path = write_replay_ctx(&ctx.verif_dir, P::ID, &f.case_json, &f.reason, &f.context);
     println!("leg {}: {}", f.leg, f.reason);
     println!("VIOLATION property={} replay={}", P::ID, path);
     return 1;
@@ -842,6 +895,14 @@ pub fn replay_prop<P: Prop>(p: &P, ctx: &Ctx, path: &str) -> i32 {
       return 2;
     }
   };
+  // cases the failing one was evaluated after (a failure that needs what the library kept between cases)
+  if let Some(before) = s.parse::<serde_json::Value>().ok().and_then(|d| d.get("context").and_then(|c| c.as_array().cloned())) {
+    for b in before {
+      if let Ok(c) = serde_json::from_value::<P::Case>(b) {
+        let _ = eval_case(p, &c);
+      }
+    }
+  }
   let (_, r) = crate::known::with_strict(|| eval_case(p, &case));
   match r {
     Ok(info) => {
